@@ -1,9 +1,100 @@
-(* C20 — the consensus wrapper drives the chain through a valid block lifecycle (theorems below). *)
+(* C20 — the consensus wrapper drives the chain through a valid block lifecycle.
+   Property theorems only; model in Model/Snow.v, proofs in Proofs/Snow_proofs.v.
+
+   Vocabulary (Model/Snow.v):
+     step / init_state   the model of snow.VM (snow/block.go, vm.go, chain_index.go, fifo.go)
+     erun c Q st es ops  runs the model on the engine calls [ops]; it is [Some] exactly when every
+                         call obeys the snowman call-sequence contract [eguard] (and the async
+                         accepter lags at most Q blocks); [es] is the engine's own bookkeeping:
+                         e_acc / e_rej = its accept / reject decisions in order, e_ver = its
+                         successful Verify calls, e_proc = the blocks it holds as processing
+     tr                  every Chain callback and subscriber notification, in order
+     accepts / naccepted / nrejected / nverified   projections of the trace. *)
 From Coq Require Import List NArith Bool.
 Import ListNotations.
-From HV Require Import Model.Snow.
+From HV Require Import Model.Snow Proofs.Snow_proofs.
 Local Open Scope N_scope.
 
+(* For ALL engine call sequences obeying the contract, of any length, over any forking block tree,
+   any accepted-cache size W >= 1, any parsed-cache size, any accepter lag:
+   1. Chain.VerifyBlock / BuildBlock are only ever called on the output of a block the chain itself
+      verified, built or was initialised with, and the verified block is a child of that parent
+      (verify_parents_ok, unfolded by C20_verify_parent below);
+   2. the Chain.AcceptBlock calls are a prefix of the engine's accept decisions in the same order
+      (all of them once the queue is drained: the missing suffix has length e_pending); those
+      decisions form a chain of consecutive heights starting at the initial block, contain no
+      duplicates and no block the engine rejected;
+   3. accepted notifications = the start-up notification of block 0 followed by one per
+      AcceptBlock call in the same order; rejected notifications = the engine's reject decisions in
+      order; verified notifications = the engine's successful Verify calls on blocks it did not
+      build itself, in order. *)
+Theorem C20_lifecycle : forall c Q ops st es tr,
+  c_ready c = true -> 1 <= c_W c -> no_sync ops = true ->
+  erun c Q (init_state c) (init_estate c) ops = Some (st, es, tr) ->
+  let T := init_events c ++ tr in
+  verify_parents_ok es [0] T = true /\
+  (exists pending, e_acc es = accepts T ++ pending /\ lenN pending = e_pending es) /\
+  chain_from es 0 (e_acc es) = true /\ NoDup (e_acc es) /\
+  (forall b, In b (e_acc es) -> ~ In b (e_rej es)) /\
+  naccepted T = 0 :: accepts T /\ nrejected T = e_rej es /\ nverified T = verified_parsed es.
+Proof. exact lifecycle_props_all_runs. Qed.
+Print Assumptions C20_lifecycle.
+
+(* what verify_parents_ok says about each VerifyBlock call *)
+Theorem C20_verify_parent : forall es tr outs, verify_parents_ok es outs tr = true ->
+  forall before p b ok rest, tr = before ++ EVerify p b ok :: rest ->
+  In p (outs_after outs before) /\ e_parent es b = p /\ ok = negb (e_invalid es b).
+Proof. exact vp_sound. Qed.
+Print Assumptions C20_verify_parent.
+
+(* the same statement as the executable predicate that Check/C20_check.v evaluates on the
+   implementation's trace *)
+Theorem C20_lifecycle_exec : forall c Q ops st es tr,
+  c_ready c = true -> 1 <= c_W c -> no_sync ops = true ->
+  erun c Q (init_state c) (init_estate c) ops = Some (st, es, tr) ->
+  lifecycle_b (init_events c ++ tr) es = true.
+Proof. exact lifecycle_all_runs. Qed.
+Print Assumptions C20_lifecycle_exec.
+
+(* Lookups: after any such run, whatever was evicted from the caches, GetBlock on an accepted
+   block returns that block (on a processing block: the very object the engine verified),
+   GetBlockIDAtHeight / GetBlockByHeight at the height of an accepted block return it, and
+   LastAccepted is the engine's last accept decision ([lookup_ok], Model/Snow.v). *)
+Theorem C20_lookup : forall c Q ops st es tr o,
+  c_ready c = true -> 1 <= c_W c -> no_sync ops = true ->
+  erun c Q (init_state c) (init_estate c) ops = Some (st, es, tr) ->
+  lookup_ok es o (snd (fst (step c st o))) = true.
+Proof. exact lookup_all_runs. Qed.
+Print Assumptions C20_lookup.
+
+(* F-21: "verified notifications = ALL successful Verify calls" is false: a block returned by
+   BuildBlock is never delivered to the verified subscribers (snow/block.go verifyWithContext,
+   case b.verified). *)
+Theorem C20_built_refuted : exists c Q ops st es tr,
+  c_ready c = true /\ 1 <= c_W c /\ no_sync ops = true /\
+  erun c Q (init_state c) (init_estate c) ops = Some (st, es, tr) /\
+  built_clause_b (init_events c ++ tr) es = false.
+Proof.
+  exists (mkCfg 2 2 true), 1, [OBuild; OVerify 1; OAccept 1; OProcess].
+  vm_compute. do 3 eexists. repeat split; try reflexivity. discriminate.
+Qed.
+Print Assumptions C20_built_refuted.
+
+(* ---- non-vacuity: the hypotheses are satisfiable by long, forking runs *)
 Example C20_engine_ok_example :
-  engine_ok (mkCfg 2 2 true) 1 [OParseNew 0 false; OVerify 1; OAccept 1; OProcess] = true.
-Proof. reflexivity. Qed.
+  engine_ok (mkCfg 2 1 true) 1
+    [OParseNew 0 false; OVerify 1; OParseNew 0 true; OVerify 2; OParseNew 0 false; OVerify 3;
+     OParseNew 1 false; OVerify 4; OBuild; OSetPref 4; OBuild; OVerify 6; OAccept 1; OReject 3;
+     OProcess; OAccept 4; OProcess; OAccept 6; OProcess; OGetBlock 0; OGetIDAtHeight 1; OParse 1] = true.
+Proof. vm_compute. reflexivity. Qed.
+
+Example C20_lookup_after_eviction :
+  let c := mkCfg 2 1 true in
+  match erun c 1 (init_state c) (init_estate c)
+          [OParseNew 0 false; OVerify 1; OAccept 1; OProcess; OParseNew 1 false; OVerify 2; OAccept 2; OProcess;
+           OParseNew 2 false; OVerify 3; OAccept 3; OProcess] with
+  | Some (st, es, _) => snd (fst (step c st (OGetBlock 0))) = RBlk (BE 0) 0 false false
+                        /\ snd (fst (step c st (OGetIDAtHeight 1))) = RId 1
+  | None => False
+  end.
+Proof. vm_compute. split; reflexivity. Qed.
